@@ -39,6 +39,12 @@ Proof.
       [contradiction|]. destruct Hin as [Hin|[]]; subst y.
     apply orb_false_iff in E1. destruct E1 as [E1 _]. apply orb_false_iff in E1. destruct E1 as [E1 _].
     apply orb_false_iff in E1. destruct E1 as [Em _]. apply mem_false_notin. exact Em.
+  - (* EInRef weak: `#field` reads `inputs` *)
+    intros b1 b2 y Hin. destruct (mem "inputs" b1); [contradiction|]. destruct Hin as [Hin|[]]; subst y.
+    destruct (mem "inputs" b2) eqn:E2; [right; apply mem_In; exact E2|left; left; reflexivity].
+  - (* EInRef nb *)
+    intros b y Hin. destruct (mem "inputs" b) eqn:E; [contradiction|]. destruct Hin as [Hin|[]]; subst y.
+    apply mem_false_notin. exact E.
   - (* EList weak *)
     intros b1 b2 x. match goal with HF : Forall _ items |- _ => induction HF as [|[ld a tr] l Ha _ IHl] end;
       [intros []|]. cbn [cnode] in Ha. intros Hin. apply in_app_or in Hin. destruct Hin as [Hin|Hin].
@@ -175,6 +181,7 @@ Section FvAll.
   Fixpoint ids_ok (e : expr) {struct e} : Prop :=
     match e with
     | EId x => P x
+    | EInRef _ => P "inputs"
     | ELam _ body => ids_ok body
     | EList items =>
         (fix go (l : list (commented expr)) : Prop :=
@@ -209,6 +216,7 @@ Section FvAll.
   Proof.
     induction e using expr_ind'; intros bnd y Hok Hin; cbn [free_vars ids_ok] in *; try contradiction.
     - destruct (_ || _) in Hin; [contradiction|]. destruct Hin as [<-|[]]. exact Hok.
+    - destruct (mem "inputs" bnd) in Hin; [contradiction|]. destruct Hin as [<-|[]]. exact Hok.
     - match goal with HF : Forall _ items |- _ => induction HF as [|[ld a tr] l Ha _ IHl] end; [contradiction|].
       cbn [cnode] in Ha. destruct Hok as [H1 H2]. apply in_app_or in Hin. destruct Hin as [Hin|Hin]; eauto.
     - match goal with HF : Forall _ entries |- _ => induction HF as [|[ld [k v] tr] l Ha _ IHl] end; [contradiction|].
